@@ -179,7 +179,13 @@ def run(chk):
                 d = dict(c)
                 d["perm"] = p
                 cases.append(d)
-        res = vlib.run_cases(binary, cases, tmo=20, max_abnormal=6, shards=max(1, min(6, 12 // nr)), wrapper=MPIRUN_G + [str(nr)])
+        try:
+            res = vlib.run_cases(binary, cases, tmo=20, max_abnormal=6, shards=max(1, min(6, 12 // nr)), wrapper=MPIRUN_G + [str(nr)])
+        except vlib.MachineryError as e:
+            # an mpirun job that fails to start / dies outside a case on the loaded machine (ORTE start-up) is not a statement about the
+            # property: one retry in a single job (as lib/c13x.py does); a reproducible failure is raised again
+            vlib.log("[c13] gate-level replay on %d ranks failed outside a case (%s); retrying once" % (nr, str(e).splitlines()[0][:200]))
+            res = vlib.run_cases(binary, cases, tmo=20, max_abnormal=6, shards=1, wrapper=MPIRUN_G + [str(nr)])
         vlib.judge_results(chk, cases, res, sig, harness="c13_synch",
                            keyf=lambda c: json.dumps([c["nr"], c["dofs"], c["perm"]], sort_keys=True),
                            nontrivial=lambda c: c["nr"] >= 2 and any(x >= 2 for v in c["count"].values() for x in v))
